@@ -61,7 +61,7 @@ pub fn drive(a: &Args) {
     // named constructors
     out.emit(json!({"op":"named","opt":out_json(&LoopRange::opt()),"star":out_json(&LoopRange::star()),
         "plus":out_json(&LoopRange::plus()),"point3":out_json(&LoopRange::point(3))}));
-    let m: u32 = a.sz(5, 6) as u32;
+    let m: u32 = a.sz(7, 9) as u32;
     let mut ranges: Vec<R> = vec![];
     for lo in 0..=m {
         for hi in lo..=m {
@@ -74,6 +74,17 @@ pub fn drive(a: &Args) {
         unary(&mut out, r, &ks, true);
         for &s in &ranges {
             pair(&mut out, r, s, true);
+        }
+    }
+    // the boundary of the gap criterion: s starts just below / at / just above (a-1)/(b-a), rounded either way
+    for lo in 1..=a.sz(40, 120) as u32 {
+        for d in 1..=8u32 {
+            let q = (lo - 1) / d;
+            for c in [q.saturating_sub(1), q, q + 1, q + 2] {
+                for s in [(c, Some(c)), (c, Some(c + 1)), (c, Some(c + 5)), (c, None)] {
+                    pair(&mut out, (lo, Some(lo + d)), s, lo + d <= 12 && c + 1 <= 6);
+                }
+            }
         }
     }
     // larger parameters: judged with the closed forms that MC_LoopRanges justified
